@@ -260,3 +260,31 @@ def zero_coupling_norm():
     cache = {"energies": energies, "nac_dot": nac, "nac_vec": None}
     dyn._propagate_electronic(cache, cache, substeps=7)
     return float((dyn.populations - p0).abs().max())
+
+
+def norm_order(case):
+    """(a) total population under propagation with non-zero antisymmetric coupling: drift for n, 2n, 4n sub-steps of one
+    nuclear step (linearly varying coupling and energies), batch of independent trajectories."""
+    g = torch.Generator().manual_seed(int(case["seed"]))
+    ns, nmol = int(case["nstates"]), 3
+    out = []
+    for sub in (int(case["sub"]), 2 * int(case["sub"]), 4 * int(case["sub"])):
+        gg = torch.Generator().manual_seed(int(case["seed"]))
+        dyn = make_dyn(DummyNAD, nmol, ns, False)
+        dyn.timestep = float(case["dt"])
+        a = torch.rand((nmol, ns, 2), generator=gg, dtype=torch.float64) - 0.5
+        a = a / torch.sqrt((a * a).sum(dim=(1, 2), keepdim=True))
+        dyn._amp_phase[..., 0] = a[..., 0]
+        dyn._amp_phase[..., 1] = a[..., 1]
+        gaps = 10.0 ** (torch.rand((nmol, ns), generator=gg, dtype=torch.float64) * 4.7 - 4.0)     # 1e-4 .. 5 eV
+        e0 = torch.cumsum(gaps, dim=1)
+        e1 = e0 + 0.05 * (torch.rand((nmol, ns), generator=gg, dtype=torch.float64) - 0.5)
+        A = (torch.rand((nmol, ns, ns), generator=gg, dtype=torch.float64) - 0.5) * float(case["scale"])
+        B = (torch.rand((nmol, ns, ns), generator=gg, dtype=torch.float64) - 0.5) * float(case["scale"])
+        if case.get("spike"):
+            B[:, 0, 1] += 8.0 * float(case["scale"])
+        d0, d1 = A - A.transpose(1, 2), B - B.transpose(1, 2)
+        p0 = dyn.populations.sum(dim=1).clone()
+        dyn._propagate_electronic({"energies": e0, "nac_dot": d0, "nac_vec": None}, {"energies": e1, "nac_dot": d1, "nac_vec": None}, substeps=sub)
+        out.append([float(x) for x in (dyn.populations.sum(dim=1) - p0).abs()])
+    return out
